@@ -136,6 +136,7 @@ pub fn replay_graph<M: Model>(edges_path: &str, make: &dyn Fn() -> M, max_div_pe
     let mut divergences: Vec<Value> = Vec::new();
     let mut div_by_tag: HashMap<String, usize> = HashMap::new();
     let mut div_by_sig: HashMap<String, usize> = HashMap::new();
+    let mut bad_edges: Vec<usize> = Vec::new();
     let mut tag_counts: HashMap<String, usize> = HashMap::new();
     let mut op_counts: HashMap<String, usize> = HashMap::new();
     let hook = std::panic::take_hook();
@@ -192,6 +193,7 @@ pub fn replay_graph<M: Model>(edges_path: &str, make: &dyn Fn() -> M, max_div_pe
                     ("panic", msg, Value::Null, Value::Null)
                 }
             };
+            bad_edges.push(ei);
             *div_by_tag.entry(tag.clone()).or_insert(0) += 1;
             // details are kept per (tag, kind, field): a recorded finding under a tag must not use up the room of a different
             // divergence under the same tag
@@ -215,6 +217,72 @@ pub fn replay_graph<M: Model>(edges_path: &str, make: &dyn Fn() -> M, max_div_pe
             }
         }
     }
+    // Random walks through the agreeing part of the graph (VH_WALKS = n): the search above reaches every state through one
+    // representative path only; a walk executes a whole random behaviour of the specification on one object and compares
+    // after every step, so an effect that an earlier operation left behind in the real object without showing in the
+    // projection (a failed call that was not without effect, say) is met by the later operations of the same walk.
+    let walks: usize = std::env::var("VH_WALKS").ok().and_then(|v| v.parse().ok()).unwrap_or(0);
+    let mut walk_steps = 0usize;
+    if walks > 0 {
+        let bad: std::collections::HashSet<usize> = bad_edges.iter().cloned().collect();
+        let mut x: u64 = 0xD1B54A32D192ED03u64.wrapping_mul(shuffle + 7);
+        for _ in 0..walks {
+            let mut taken: Vec<usize> = Vec::new();
+            let mut u = init;
+            // choose the walk first (the graph decides), then execute it
+            loop {
+                let cand: Vec<usize> = out[u].iter().cloned().filter(|e| !bad.contains(e)).collect();
+                if cand.is_empty() || taken.len() >= 64 {
+                    break;
+                }
+                x = x.wrapping_mul(6364136223846793005).wrapping_add(1442695040888963407);
+                let ei = cand[((x >> 33) as usize) % cand.len()];
+                taken.push(ei);
+                u = edges[ei].d;
+            }
+            let res = catch_unwind(AssertUnwindSafe(|| {
+                let mut m = make();
+                for (n, &ei) in taken.iter().enumerate() {
+                    let e = &edges[ei];
+                    let got = m.apply(&e.o);
+                    if let Some(r) = m.compare_result(&e.o, &got) {
+                        return Some((n, "result", r, got, m.project()));
+                    }
+                    let proj = m.project();
+                    if let Some(s) = m.compare_state(&e.ds, &proj) {
+                        return Some((n, "state", s, got, proj));
+                    }
+                }
+                None
+            }));
+            walk_steps += taken.len();
+            let (n, kind, detail, got, proj) = match res {
+                Ok(None) => continue,
+                Ok(Some(d)) => d,
+                Err(p) => {
+                    let msg = p.downcast_ref::<String>().cloned().or_else(|| p.downcast_ref::<&str>().map(|s| s.to_string())).unwrap_or("panic".to_string());
+                    (taken.len().saturating_sub(1), "panic", msg, Value::Null, Value::Null)
+                }
+            };
+            let e = &edges[taken[n]];
+            let tag = e.o["tag"].as_str().unwrap_or("").to_string();
+            *div_by_tag.entry(tag.clone()).or_insert(0) += 1;
+            let field: String = detail.split(':').next().unwrap_or("").chars().filter(|ch| !ch.is_ascii_digit()).collect();
+            let c = div_by_sig.entry(format!("{tag}|{kind}|{field}")).or_insert(0);
+            *c += 1;
+            if *c <= max_div_per_tag {
+                let ops: Vec<Value> = taken[..=n].iter().enumerate().map(|(k, &pe)| {
+                    let mut o = edges[pe].o.clone();
+                    if k == n { o["ds"] = e.ds.clone(); }
+                    o
+                }).collect();
+                divergences.push(json!({
+                    "tag": tag, "kind": kind, "detail": detail, "ops": ops, "walk": true,
+                    "got": got, "expected_state": e.ds, "got_state": proj,
+                }));
+            }
+        }
+    }
     std::panic::set_hook(hook);
     let masked = tested.iter().filter(|t| !**t).count();
     ReplayReport {
@@ -224,7 +292,8 @@ pub fn replay_graph<M: Model>(edges_path: &str, make: &dyn Fn() -> M, max_div_pe
             "edges_masked": masked,
             "states_total": nstates,
             "states_reached": visited.iter().filter(|v| **v).count(),
-            "ops_executed": ops_executed,
+            "ops_executed": ops_executed + walk_steps,
+            "walks": walks, "walk_steps": walk_steps,
             "divergent_edges_by_tag": div_by_tag,
             "tag_counts": tag_counts,
             "op_counts": op_counts,
